@@ -124,6 +124,7 @@ static struct run_log RUNS[2];
 static int g_run;               // current run index
 static int g_triggers[2];       // user triggers issued in each run
 static uint64_t g_start_ns[2];
+static int g_streamer_tid[2];
 static int g_stop_calls;
 
 static void do_get_frames(int k)
@@ -145,10 +146,12 @@ static void do_get_frames(int k)
             vs_fail("C18:frame-id-not-increasing", "run %d: successive frame calls returned hardware frame ids %llu then %llu", g_run, (unsigned long long)r->ids[r->nframes - 2], (unsigned long long)r->ids[r->nframes - 1]);
         if (P_TRIG && r->nframes > g_triggers[g_run])
             vs_fail("C18:more-frames-than-triggers", "run %d: %d frames delivered but only %d software triggers were issued in this run", g_run, r->nframes, g_triggers[g_run]);
-        // the id counts every frame generated since this start: it cannot exceed what the exposure time allows
-        uint64_t max_generated = (vs_now_ns() - g_start_ns[g_run]) / (uint64_t)(P_EXPOSURE_MS * 1e6) + 1;
+        // the id counts every frame generated since this start; the streamer sleeps out one exposure per frame, so it cannot
+        // exceed the number of exposure sleeps the streamer thread of THIS run has begun (wall-clock arithmetic would be wrong
+        // here: an early wake-up deviation shortens a sleep without moving the virtual clock)
+        uint64_t max_generated = vs_sleeps_of(g_streamer_tid[g_run]) + 1;
         if (!P_TRIG && info.hardware_frame_id > max_generated)
-            vs_fail("C18:frame-count-not-restarted", "run %d: frame id %llu although at most %llu frames can have been generated since this start", g_run, (unsigned long long)info.hardware_frame_id, (unsigned long long)max_generated);
+            vs_fail("C18:frame-count-not-restarted", "run %d: frame id %llu although the streamer of this run has generated at most %llu frames", g_run, (unsigned long long)info.hardware_frame_id, (unsigned long long)max_generated);
         if (P_TRIG && info.hardware_frame_id >= (uint64_t)g_triggers[g_run] + 1)
             vs_fail("C18:frame-count-not-restarted", "run %d: frame id %llu with only %d triggers issued in this run", g_run, (unsigned long long)info.hardware_frame_id, g_triggers[g_run]);
     }
@@ -170,6 +173,7 @@ static void c18_run(void)
 {
     g_run = 0;
     g_start_ns[0] = vs_now_ns();
+    g_streamer_tid[0] = vs_thread_count(); // camera_start creates the streamer thread next
     if (camera_start(CAM) != Device_Ok) vs_fail("harness:camera-start", "camera_start failed");
     int tc = vs_spawn(caller_thread, 0, "caller");
     int tk = vs_spawn(controller_thread, 0, "controller");
@@ -181,6 +185,7 @@ static void c18_run(void)
     if (vs_param("restart", 1)) {
         g_run = 1;
         g_start_ns[1] = vs_now_ns();
+        g_streamer_tid[1] = vs_thread_count();
         if (camera_start(CAM) != Device_Ok) vs_fail("harness:camera-restart", "camera_start failed on restart");
         int t2 = vs_spawn(caller_thread, 0, "caller2");
         const char* c2 = vs_param_str("ctl2", P_TRIG ? "wws" : "ws");
@@ -211,6 +216,7 @@ static void c17r_caller(void* a) { (void)a; do_get_frames(P_FRAMES); }
 static void c17r_run(void)
 {
     g_run = 0; g_start_ns[0] = vs_now_ns();
+    g_streamer_tid[0] = vs_thread_count();
     if (camera_start(CAM) != Device_Ok) vs_fail("harness:camera-start", "camera_start failed");
     int tc = vs_spawn(c17r_caller, 0, "caller");
     vs_sleep_ms(1);
